@@ -3,7 +3,7 @@
    specifications (so also when the same sub-formula text occurs more than
    once: the dictionary is keyed by the formula).  Property theorems only. *)
 From Coq Require Import List Arith ZArith String.
-From RV Require Import Val Syntax Rho Offline ListFacts OfflineCorrect Online OnlineCorrect ExtZ.
+From RV Require Import Val Syntax Rho Offline ListFacts OfflineCorrect Online OnlineCorrect ExtZ IA OnlineGen OnlineGenCorrect.
 From RV Require Import Lexer Units NodeName NodeNameCorrect OnlineNamed OnlineNamedCorrect.
 Import ListNotations.
 
@@ -24,6 +24,14 @@ Theorem C02_online_offline :
     snd (mon_run AR pk [p] dict_init w 0 n) = eval_off AR pk p w n.
 Proof. exact @online_offline. Qed.
 Print Assumptions C02_online_offline.
+
+(* the tie to the code: OnlineGen.v is re-generated on every build from the Python text of the *_operation.py classes
+   (tools/py2coq_online.py); at every node the class the online visitor constructs for it refines op_init / ustep / bstep /
+   op_reset of the hand model used above (gen_refines is the per-node simulation statement of OnlineGenCorrect.v) *)
+Theorem C02_generated_operations :
+  forall (VS : Val) (AR : Arith VS) (pk : formula -> formula -> pkind) (p : formula), gen_refines AR pk p.
+Proof. exact @online_gen_refines. Qed.
+Print Assumptions C02_generated_operations.
 
 Example C02_nonvacuous :
   let q : @formula ExtZVal := SPrev (Pred CGeq (Var 0) (Const (Fin 1))) in
